@@ -118,6 +118,29 @@ def check_deserialize_header(run, L, path, fields):
     run.ob(key + ':fields', ok and got == fields, rule='K8 reader table', expected='deserialize_struct("%s", FIELDS = %s)' % (short, fields), found=got, where=r.get('span'))
 
 
+def check_derive_census(run, L, path):
+    """Derive helper attributes (`#[serde(with / deserialize_with / default / ...)]`) are not visible after expansion, but
+    their effect is: the generated code then calls something that is neither serde's data model nor generated code.  Every
+    function generated for this type (the `_::<impl serde::..>` block: impl methods, visitors, wrapper structs) may call only
+    serde's traits; whatever it inlines must be generated code of the same block or core/std."""
+    roots = [k for k in L.roots if ('::_::<impl serde::Serialize for %s<' % path) in k or re.search(r"::_::<impl serde::Deserialize<'\w+> for %s<" % re.escape(path), k)]
+    key = '%s:derive:%s:census' % (PROP, path)
+    foreign = set()
+    for k in roots:
+        r = L.roots[k]
+        run.roots.add(k)
+        for f in r.get('uninterp', []):
+            if not (f.startswith('serde_core::') or f.startswith('serde::')):
+                foreign.add('calls ' + f)
+        for f in r.get('inlined', []):
+            nm = f.split(' @ ')[0]
+            if '::_::<impl serde::' in nm or nm.startswith(('core::', 'std::', 'alloc::', '<core::', '<std::', '<alloc::', 'serde', '<serde')):
+                continue
+            foreign.add('inlines ' + nm)
+    run.ob(key, len(roots) >= 2 and not foreign, rule='K8 derive census', expected='derive-generated code of %s calls only serde\'s traits and its own generated items' % path.split('::')[-1],
+           found=sorted(foreign)[:4] or '%d generated functions' % len(roots))
+
+
 def reader_roots(L, path, method):
     """Visitor methods of the hand-written reader of `path`: in the type's module, not inside a derive-generated block;
     those naming the type are preferred (a module with several hand-written readers)"""
@@ -369,20 +392,10 @@ def run(tier):
         if len(ser) != 1 or len(de) != 1:
             continue
         how[path] = ('derived' if ser[0]['derived'] else 'manual', 'derived' if de[0]['derived'] else 'manual')
-        if ser[0]['derived'] or de[0]['derived']:
-            sattrs = [x for x in a['attrs'] if x.get('path') == 'serde'] + [x for f in a['fields'] for x in f['attrs'] if x.get('path') == 'serde']
-            # `bound(..)` only restates where-clauses and `deny_unknown_fields` only rejects more; everything else (rename, skip,
-            # default, flatten, with, ...) changes names, presence or defaults
-            def harmless(x):
-                t = re.sub(r'\s+', '', x.get('text') or '')
-                t = re.sub(r'"(?:[^"\\\\]|\\\\.)*"', '""', t)
-                t = re.sub(r'bound\((serialize="",?|deserialize="",?)*\)|bound=""', '', t)
-                t = t.replace('deny_unknown_fields', '')
-                return re.fullmatch(r'(#\[)?serde\(?[,]*\)?\]?', t) is not None
-            sattrs = [x for x in sattrs if not harmless(x)]
-            run.ob(key + ':no-serde-attrs', not sattrs, rule='K8', expected='no #[serde(..)] attribute that renames, skips or defaults on the type or its fields', found=[x.get('text') for x in sattrs], where=a['span'])
         check_serialize(run, L, path, fields, a)
         check_deserialize_header(run, L, path, fields)
+        if ser[0]['derived'] or de[0]['derived']:
+            check_derive_census(run, L, path)
         if de[0]['derived']:
             if path not in NEWTYPES:
                 # the derived field identifier: "name_i" -> __field_i in declaration order, other keys ignored
@@ -406,7 +419,7 @@ def run(tier):
     run.floor('derived_types', len([p for p in DERIVED if p in adts]), 20)
     run.floor('roots', len(run.roots), 40)
     return run.finish(
-        explanation='With the serde feature: (a) Cargo.toml declares serde optional with its derive feature. (b) For the 20 derived types: Serialize/Deserialize impls exist and are automatically derived, no #[serde] attribute alters names or defaults, and the all-Ok path of serialize is serialize_struct(Name, n), serialize_field(ident_i, &self.ident_i) in declaration order (reference into self at the field\'s leaf offset), end - Rad/Deg: serialize_newtype_struct of .0, a bare number; deserialize passes the same name and FIELDS table. (c) Decomposed, hand-written: writer names scale/rot/disp from the like-named fields; reader FIELDS equal; visit_str maps each name to its own variant and every other key to Err; visit_map is unrolled up to a bound and every key sequence (all 6 permutations, every omission, duplicates, failures of next_key/next_value) is followed: failing calls propagate, a missing field yields Err(missing_field(its name)) - never a default -, a complete set yields Ok with each field taken from the value read right after its own key, and the key name equals the ident of the field it fills.',
+        explanation='With the serde feature: (a) Cargo.toml declares serde optional with its derive feature. (b) For each of the 21 serializable types, whether its impls are derived or written by hand: one Serialize and one Deserialize impl exist; the all-Ok path of the serialize body is serialize_struct(Name, n), serialize_field(ident_i, &self.ident_i) in declaration order, end (Rad/Deg: serialize_newtype_struct of .0, a bare number); the deserialize body passes the same name and FIELDS table. A derived reader is checked through its generated field visitor (name_i -> field i, other keys ignored) and a census of everything the generated code calls or inlines (only serde traits and its own generated items: the effect of with / deserialize_with / default attributes, which are not visible after expansion). A hand-written reader is analysed in full: visit_str maps each name to its own variant and every other key to Err; visit_map is unrolled up to a bound and every key sequence (all permutations, every omission, duplicates, failures of next_key/next_value) is followed: failing calls propagate, a missing field yields Err(missing_field(its name)) - never a default -, a complete set yields Ok with each field taken from the value read right after its own key, and the key name equals the ident of the field it fills; a hand-written newtype reader wraps the value read by the scalar\'s own Deserialize and propagates its error. (c) Decomposed must reject unknown keys whichever way its reader is implemented.',
         trusted_base=['rustc nightly type checking / trait resolution / MIR construction', 'mirsum abstract interpreter with bounded loop unrolling (cut leaves beyond the bound are not claimed)', 'serde_derive generates a reader consistent with the writer for attribute-free structs (only its tables are inspected)', 'serde data model: newtype structs are transparent in self-describing formats'],
         not_decided=['bit-exact round trip of floating-point text (belongs to the serializer, e.g. serde_json)', 'key sequences longer than the unrolling bound'],
         exhaustive=False)
